@@ -119,6 +119,27 @@ def walkStep (dest : Path) (w : Walk) (c : String) : Except (FS × String) Walk 
         | some p => if isDirAt dest w.fs p then Except.ok { w with cur := p } else Except.error (w.fs, "NotADirectoryError")
         | none => Except.error (w.fs, "FileExistsError")        -- dangling link: exists() is false, mkdir finds the link
 
+/-- where `open(path, O_WRONLY|O_CREAT|O_TRUNC)` lands when the last component may be a symbolic link: the kernel resolves
+  every component but the last strictly (each must exist), follows a link in last position, and creates the file in the
+  directory reached.  (Python's lexical `realpath` collapses `missing/..`; the kernel does not: ENOENT.) -/
+def kopen (dest : Path) (fs : FS) : Nat → Path → List String → Except String Path
+  | 0, _, _ => Except.error "ELOOP"
+  | fuel + 1, cur, comps =>
+    let last := comps.getLast?.getD ""
+    match kresolve dest fs FUEL cur comps.dropLast with
+    | none => Except.error "FileNotFoundError"
+    | some p =>
+      if !isDirAt dest fs p then Except.error "NotADirectoryError"
+      else if last == "" || last == "." || last == ".." then Except.error "IsADirectoryError"
+      else
+        let q := p ++ [last]
+        if !isPrefix dest q then Except.error "outside"
+        else match lookup fs (q.drop dest.length) with
+          | none => Except.ok q
+          | some (Node.file _) => Except.ok q
+          | some Node.dir => Except.error "IsADirectoryError"
+          | some (Node.link t) => if t.startsWith "/" then kopen dest fs fuel [] (split t) else kopen dest fs fuel p (split t)
+
 def walkParent (dest : Path) (fs : FS) (comps : List String) : Except (FS × String) Walk :=
   comps.foldlM (walkStep dest) { fs := fs, cur := dest, creating := false }
 
@@ -155,6 +176,8 @@ def extractMember (dest : Path) (fs : FS) (earlier : List Member) (m : Member) :
       | Except.ok w =>
         let fs := w.fs
         if !isPrefix dest w.cur then Verdict.osError fs "outside" else
+        -- upperdirs "exists" also when it is (a link to) a regular file: creating anything below it is ENOTDIR
+        if !isDirAt dest fs w.cur then Verdict.osError fs "NotADirectoryError" else
         let here : Path := if last == "" || last == "." then rel dest w.cur
                            else if last == ".." then (rel dest w.cur).dropLast else rel dest w.cur ++ [last]
         let literalDir := last == "" || last == "." || last == ".."
@@ -168,14 +191,10 @@ def extractMember (dest : Path) (fs : FS) (earlier : List Member) (m : Member) :
           match lookup fs here with
           | some Node.dir => Verdict.osError fs "IsADirectoryError"
           | some (Node.link _) =>
-            -- open(.., 'wb') follows the link: the file lands at the resolved target (checked to be inside)
-            let rt := rel dest target
-            match lookup fs rt with
-            | some Node.dir => Verdict.osError fs "IsADirectoryError"
-            | _ =>
-              if rt.isEmpty then Verdict.osError fs "IsADirectoryError"
-              else if isDirAt dest fs (target.dropLast) then Verdict.ok (setNode fs rt (Node.file m.content))
-              else Verdict.osError fs "FileNotFoundError"
+            -- open(.., 'wb') follows the link the way the kernel does
+            match kopen dest fs FUEL w.cur [last] with
+            | Except.error why => Verdict.osError fs why
+            | Except.ok q => Verdict.ok (setNode fs (rel dest q) (Node.file m.content))
           | _ => Verdict.ok (setNode fs here (Node.file m.content))
         | Kind.sym =>
           if literalDir then Verdict.osError fs "IsADirectoryError" else
